@@ -50,6 +50,7 @@ let show_ret (r : ret) : string =
   | RCmp Lt -> "cmp -1" | RCmp Eq -> "cmp 0" | RCmp Gt -> "cmp 1"
   | RWords [] -> "words none"
   | RWords ws -> "words " ^ String.concat "," (List.map hex_of_bytes ws)
+  | RNull -> "null"
   | RFuel -> "fuel"
 
 let rec nth_opt l i = match l with [] -> None | x :: r -> if i = 0 then Some x else nth_opt r (i - 1)
@@ -73,12 +74,26 @@ let show_lret = function
   | LRItem None -> "none"
   | LRLen n -> Printf.sprintf "len %d" (int_of_n n)
 
+(* "F<k>" = only the k-th allocation request of this operation is refused, "A<k>" = the k-th and all later *)
+let oracle_of (tk : string) : bool list option =
+  let n = String.length tk in
+  if n >= 2 && (tk.[0] = 'F' || tk.[0] = 'A') && tk.[1] >= '0' && tk.[1] <= '9' then
+    (match int_of_string_opt (String.sub tk 1 (n - 1)) with
+     | Some k when k >= 1 ->
+       let pre = List.init (k - 1) (fun _ -> true) in
+       Some (if tk.[0] = 'F' then pre @ [false] else pre @ List.init 4096 (fun _ -> false))
+     | _ -> None)
+  else None
+
 let () =
   let cur : buf option ref = ref None in
   let lst : wlist option ref = ref None in
   try while true do
     let line = input_line stdin in
-    let t = split_line line in
+    let t0 = split_line line in
+    let (orc, t) = (match t0 with
+        | tk :: rest when rest <> [] -> (match oracle_of tk with Some o -> (o, rest) | None -> ([], t0))
+        | _ -> ([], t0)) in
     (match t with
      | "S" :: h :: st :: rest ->
        (match parse_op rest with
@@ -87,7 +102,11 @@ let () =
           Printf.printf "%s | %d %s %d%s\n" (show_ret r) (List.length s') (hex_of_bytes s') (if st' then 1 else 0)
             (if op_ok (hx h, st = "1") o then "" else " OUT-OF-CONTRACT")
         | None -> print_endline "bad")
-     | ["lnew"] -> lst := Some lcreate; Printf.printf "v | %s\n" (show_list lcreate)
+     | ["lnew"] ->
+       (match fst (lcreate_a orc), !lst with
+        | Some l, _ -> lst := Some l; Printf.printf "v | %s\n" (show_list l)
+        | None, Some l -> Printf.printf "null | %s\n" (show_list l)
+        | None, None -> print_endline "null | nolist")
      | (("lapp" | "lins" | "lget" | "lext" | "llen") :: _) ->
        (match !lst with
         | None -> print_endline "nolist"
@@ -102,7 +121,7 @@ let () =
           (match o with
            | None -> print_endline "bad"
            | Some o ->
-             let (l', r) = lstep l o in
+             let (l', r) = lstep_a orc l o in
              lst := Some l';
              Printf.printf "%s | %s\n" (show_lret r) (show_list l')))
      | _ ->
@@ -114,7 +133,10 @@ let () =
            | None, false -> print_endline "nobuf"
            | _ ->
              let b = (match !cur with Some b -> b | None -> create [] N0) in
-             let (b', r) = step b o in
-             cur := Some b';
-             Printf.printf "%s | %s\n" (show_ret r) (show_buf b'))))
+             let (b', r) = step_a orc b o in
+             if !cur = None && r = RNull then print_endline "null | nobuf"
+             else begin
+               cur := Some b';
+               Printf.printf "%s | %s\n" (show_ret r) (show_buf b')
+             end)))
   done with End_of_file -> ()
